@@ -160,7 +160,7 @@ private:
   CPPToken expand_manifest(const CPPManifest *manifest, const YYLTYPE &loc);
   void r_expand_manifests(std::string &expr, bool expand_undefined,
                           const YYLTYPE &loc, std::set<const CPPManifest *> &expanded);
-  void extract_manifest_args(const std::string &name, int num_args,
+  bool extract_manifest_args(const std::string &name, int num_args,
                              int va_arg, vector_string &args);
   void expand_defined_function(std::string &expr, size_t q, size_t &p) const;
   void expand_has_include_function(std::string &expr, size_t q, size_t &p) const;
